@@ -122,6 +122,8 @@ def run_spec(spec, tier, seed, replay=None):
         if replay:
             rp = json.load(open(replay))
             cs = [(c, {"replay"}) for c in rp.get("cases", [])]
+            if "aux" in rp and hasattr(spec, "load_aux"):
+                spec.load_aux(rp["aux"])
         else:
             cs = spec.corpus() + spec.cases(tier, seed)
         cases = [c for c, _ in cs]
@@ -189,7 +191,8 @@ def run_spec(spec, tier, seed, replay=None):
     if unknown_fail:
         i = min(unknown_fail, key=lambda j: len(cases[j]))
         run.violation({"property": spec.pid, "kind": "oracle-false-on-implementation-output",
-                       "cases": [cases[i]], "impl_obs": impl[i], "model_obs": model[i] if model else None,
+                       "cases": [cases[i]], "aux": spec.replay_aux([cases[i]]) if hasattr(spec, "replay_aux") else None,
+                       "impl_obs": impl[i], "model_obs": model[i] if model else None,
                        "how_to_replay": "./check %s --replay <this file>" % spec.pid,
                        "other_failing_cases": [cases[j] for j in unknown_fail[:20]]})
         reported = True
@@ -213,7 +216,8 @@ def run_spec(spec, tier, seed, replay=None):
         if real_diffs:
             i = min(real_diffs, key=lambda j: len(cases[j]))
             payload["correspondence"] = {"name": "impl-vs-model:%s" % spec.pid, "disagreements": len(real_diffs),
-                                         "cases": [cases[i]], "impl_obs": impl[i], "model_obs": model[i]}
+                                         "cases": [cases[i]], "aux": spec.replay_aux([cases[i]]) if hasattr(spec, "replay_aux") else None,
+                                         "impl_obs": impl[i], "model_obs": model[i]}
             payload["cases"] = [cases[i]]
         run.violation(payload, found_input=False)
 
